@@ -46,7 +46,7 @@ WARN2_KINDS = QUICK2_KINDS + ["ns"]
 
 BOUNDS = {
     "quick": {
-        "raise_full_product": "weight<=1 over all 32 kinds, LF: every position x 12 raise kinds x 5 paths",
+        "raise_full_product": "weight<=1 over all 32 kinds, LF: every position x 13 raise kinds x 5 paths",
         "raise_rotated": "weight 2 over 11 kinds (QUICK2_KINDS) LF and weight<=1 over all kinds CRLF: every (program,position,kind) "
         "on one rotating path + the 2 principal kinds on all 5 paths + format_exceptions on one path",
         "warn": "weight<=1 (all kinds, LF) and weight 2 over {block, ablock, defb}: every position x 8 warning plants x 5 paths x {always,once,error}",
@@ -61,7 +61,7 @@ BOUNDS = {
         "paths": PATHS,
     },
     "thorough": {
-        "raise_full_product": "weight<=2 over all 32 kinds, LF: every position x 12 raise kinds x 5 paths",
+        "raise_full_product": "weight<=2 over all 32 kinds, LF: every position x 13 raise kinds x 5 paths",
         "raise_rotated": "weight 3 over 8 kinds (W3_KINDS) LF; weight<=2 over the 21 core kinds CRLF (rotating path + principal kinds on all paths)",
         "warn": "weight<=1 all kinds LF and CRLF, weight 2 over 12 kinds (WARN2_KINDS) LF: every position x 8 warning plants x 5 paths x {always,once,error}",
         "recompiled_module_file": "as quick, over weight<=2 (QUICK2_KINDS) LF and weight 1 all kinds LF+CRLF",
